@@ -230,6 +230,17 @@ def gen_inputs(ctx):
     for n in ((30, 40) if ctx.quick else (26, 30, 34, 40)):
         for kind in ("dup", "diamond"):
             add("layered-hierarchy", [["/w/main.td", layered(n, kind)]], "/w/main.td")
+    # user-chosen names colliding with generated anonymous names (single, consecutive pairs / triples; def and defm; defsets)
+    for _ in range(40 if ctx.quick else 300):
+        add("name-collision", [["/w/main.td", g.collision_program()]], "/w/main.td")
+    # doc comments whose first character after the slashes is multi-byte whitespace (hover reads them)
+    for t in symgen.doc_space_cases(ctx.rng, 30 if ctx.quick else 200):
+        add("doc-space", [["/w/main.td", t]], "/w/main.td")
+        add("doc-space", [["/w/main.td", symgen.inject_nonascii(t, ctx.rng)]], "/w/main.td")
+    # re-edit family: set_file_content only (no set_root_file) with the same tokens and different trivia, then every query again
+    for files, root, reedit in symgen.reedit_cases(g, ctx.rng, 30 if ctx.quick else 200):
+        add("re-edit", files, root)
+        wss[-1]["reedit"] = reedit
     return wss, kinds
 
 
@@ -314,7 +325,7 @@ def run(ctx):
                 files = L.shrink_files(files, e["ws"]["root"], pred, 20)
         ctx.violation("C03 violated on the real analysis: %s" % e["c03"],
                       {"property": "C03", "files": files, "root": e["ws"]["root"], "original_files": e["ws"]["files"],
-                       "hint_ranges": std_hints(files), "what": e["c03"], "seed": ctx.seed, "kind": kind,
+                       "hint_ranges": std_hints(files), "reedit": e["ws"].get("reedit"), "what": e["c03"], "seed": ctx.seed, "kind": kind,
                        "failing_workspaces_in_this_run": len(bad_inputs)})
         found = True
     # extraction cross-check: the same side conditions and answers evaluated by vm_compute inside Coq
@@ -367,6 +378,8 @@ def replay(ctx, path):
     hr = obj.get("hint_ranges")
     w = {"files": fs, "root": obj["root"], "hover": True, "completion": True,
          "hint_ranges": hr if isinstance(hr, list) else std_hints(fs)}
+    if obj.get("reedit"):
+        w["reedit"] = obj["reedit"]
     e = L.evaluate(bindir, exe, [w])[0]
     print("implementation:", e["c03"] or "all queries answered (%d)" % e["real"]["queries"])
     if e["c03"] is None:
